@@ -46,17 +46,18 @@ def simple_items(names=NAMES):
     )
 
 
-def item_lists(depth, names=NAMES, extra=None, max_items=4, raw=True):
-    """list of items, chains nested up to `depth`"""
+def item_lists(depth, names=NAMES, extra=None, max_items=4, raw=True, cond_strategy=None):
+    """list of items, chains nested up to `depth`; `cond_strategy` overrides the
+    strategy for #if/#elif conditions (e.g. to repeat spellings within a program)"""
     base = [simple_items(names)]
     if extra is not None:
         base.append(extra)
     if depth <= 0:
         one = st.one_of(*base)
     else:
-        sub = st.deferred(lambda: item_lists(depth - 1, names, extra, max_items=3, raw=raw))
+        sub = st.deferred(lambda: item_lists(depth - 1, names, extra, max_items=3, raw=raw, cond_strategy=cond_strategy))
         nm = st.sampled_from(list(names) + ["E", "F"])
-        c = conds(names, raw)
+        c = cond_strategy if cond_strategy is not None else conds(names, raw)
         opener = st.one_of(
             st.tuples(st.just("ifdef"), nm),
             st.tuples(st.just("ifndef"), nm),
@@ -74,6 +75,33 @@ def item_lists(depth, names=NAMES, extra=None, max_items=4, raw=True):
     return st.lists(one, min_size=0, max_size=max_items).map(lambda ls: [x for l in ls for x in l])
 
 
+def revisit_blocks(names=NAMES):
+    """The same condition spelled identically before and after a macro state change:
+    chain(c) ; #define/#undef of the macro c depends on ; chain(c)."""
+    nm = st.sampled_from(list(names) + ["E", "F"])
+
+    def build(n, form, k, change, body, first_kind):
+        if form == "raw":
+            c = ["raw", n]
+        elif form == "defined":
+            c = ["defined", n, True]
+        elif form == "not":
+            c = ["not", ["par", ["cmp", n, "==", k]]]
+        else:
+            c = ["cmp", n, form, k]
+        if n in ("E", "F"):
+            chg = [["define", n, "1" if n == "E" else ""]] if change != "undef" else [["undef", n]]
+        elif change == "undef":
+            chg = [["undef", n]]
+        else:
+            chg = [["undef", n], ["define", n, body]]
+        first = ["chain", [["if", c, [["code", 1]]]], [["code", 1]]]
+        second = ["chain", [["if", ["const", 0], [["code", 1]]], ["elif", c, [["code", 1]]]], [["code", 1]]] if first_kind else ["chain", [["if", c, [["code", 1]]]], None]
+        return [first] + chg + [second]
+
+    return st.builds(build, nm, st.sampled_from(["raw", "==", ">", "!=", "defined", "not"]), st.sampled_from([0, 1, 2, 7]), st.sampled_from(["define", "define", "undef"]), st.sampled_from(["0", "1", "2", "7"]), st.booleans())
+
+
 def styles():
     return st.lists(st.integers(0, 1000), min_size=1, max_size=12)
 
@@ -87,7 +115,18 @@ def define_sets(names=NAMES):
 def single_file_cases(depth=4, names=NAMES):
     @st.composite
     def case(draw):
-        items = draw(item_lists(depth, names, max_items=5))
+        # a small pool of conditions per program, so that identical spellings are evaluated
+        # several times under different macro states
+        pool = draw(st.lists(conds(names), min_size=1, max_size=3))
+        cs = st.one_of(st.sampled_from(pool), st.sampled_from(pool), conds(names)) if draw(st.booleans()) else None
+        items = draw(item_lists(depth, names, max_items=5, cond_strategy=cs))
+        if draw(st.integers(0, 2)) == 0:
+            blk = draw(revisit_blocks(names))
+            pos = draw(st.integers(0, len(items)))
+            if draw(st.booleans()):
+                items[pos:pos] = blk
+            else:  # nested inside a group that every platform takes
+                items[pos:pos] = [["chain", [["if", ["const", 1], blk]], None]]
         fname = draw(st.sampled_from(["main.c", "main.cpp", "src/main.c", "main.h"]))
         nplat = draw(st.integers(1, 3))
         plats = {}
@@ -130,11 +169,12 @@ def include_items(quote_ok=None, angle_ok=None, dangling=None):
     return st.one_of(plain, plain, plain, computed)
 
 
-def header_files(idx, names=NAMES, include_strategy=None, depth=2):
-    """A header: unguarded (leaf), #ifndef-guarded or #pragma once."""
+def header_files(idx, names=NAMES, include_strategy=None, depth=2, selfname=None):
+    """A header: unguarded (leaf), #ifndef-guarded, #pragma once, or "two-pass":
+    a header that includes itself once and takes its #else branch the second time."""
     @st.composite
     def hdr(draw):
-        guard = draw(st.sampled_from(["none", "ifndef", "once", "ifndef"]))
+        guard = draw(st.sampled_from(["none", "ifndef", "once", "ifndef"] + (["twopass"] if selfname else [])))
         extra = include_strategy if guard != "none" else None
         body = draw(item_lists(depth, names, extra=extra, max_items=4, raw=False))
         if not any(it[0] == "code" for it in body):
@@ -142,6 +182,11 @@ def header_files(idx, names=NAMES, include_strategy=None, depth=2):
         if guard == "ifndef":
             g = f"GUARD_{idx}"
             items = [["chain", [["ifndef", g, [["define", g, ""]] + body]], None]]
+        elif guard == "twopass":
+            g = f"PASS2_{idx}"
+            second = draw(item_lists(1, names, extra=None, max_items=3, raw=False))
+            pre = draw(st.booleans())
+            items = ([["code", 1]] if pre else []) + [["chain", [["ifndef", g, [["define", g, ""]] + body + [["include", "quote", selfname]] + [["code", 1]]]], [["code", 1]] + second]]
         elif guard == "once":
             items = [["once"]] + body
         else:
@@ -184,7 +229,7 @@ def include_tree_cases(dangling=None, unknown=None):
         for d in HDR_DIRS:
             for n in HDR_NAMES:
                 if (d, n) in present:
-                    tree[f"{d}/{n}"] = draw(header_files(k, include_strategy=include_items(quote_ok(d), angle_ok, dangling)))
+                    tree[f"{d}/{n}"] = draw(header_files(k, include_strategy=include_items(quote_ok(d), angle_ok, dangling), selfname=n))
                 k += 1
         for m in mains:
             mdir = m.rsplit("/", 1)[0]
